@@ -519,10 +519,68 @@ pub fn run(ctx: &Ctx) -> Report {
     st = st.merge(st_f);
     base += total_f;
 
+    // ---- G. scale: many parameters / headers / values / segments (algorithms change behaviour with size)
+    let mut scale_plans: Vec<(String, Plan)> = Vec::new();
+    for carrier in [Carrier::Header, Carrier::Query] {
+        for n in [21usize, 40, 100, 300] {
+            for k in [1usize, 3, 16] {
+                let mut p = e2e::base_plan(carrier);
+                p.url_params = (0..n).map(|i| (format!("p{}", i % k).into_bytes(), format!("v{:03}", (i * 7919) % 1000).into_bytes())).collect();
+                p.url_params.rotate_left(n / 3);
+                scale_plans.push((format!("{} params over {} names", n, k), p));
+            }
+        }
+        // 30 signed headers; one header with 30 values; long values
+        let mut p = e2e::base_plan(carrier);
+        for i in 0..30 {
+            p.headers.push((format!("X-H-{:02}", (i * 17) % 30), format!("value {}", i).into_bytes()));
+            p.signed.push(format!("x-h-{:02}", (i * 17) % 30));
+        }
+        scale_plans.push(("30 signed headers".into(), p));
+        let mut p = e2e::base_plan(carrier);
+        for i in 0..30 {
+            p.headers.push(("X-Multi".into(), format!(" v{}  x ", (i * 13) % 30).into_bytes()));
+        }
+        p.signed.push("x-multi".into());
+        scale_plans.push(("one header with 30 values".into(), p));
+        let mut p = e2e::base_plan(carrier);
+        p.headers.push(("X-Long".into(), "long  value ".repeat(400).into_bytes()));
+        p.signed.push("x-long".into());
+        p.url_params = vec![(b"q".to_vec(), "é ".repeat(1500).into_bytes())];
+        p.body = vec![0xa5; 300_000];
+        scale_plans.push(("4 kB header value, 9 kB query value, 300 kB body".into(), p));
+        // deep path
+        let mut p = e2e::base_plan(carrier);
+        p.segs = (0..60).map(|i| format!("s{} x", i).into_bytes()).collect();
+        p.trailing_slash = true;
+        scale_plans.push(("60 path segments".into(), p));
+        // folded form with many parameters
+        let mut p = e2e::base_plan(carrier);
+        p.method = "POST".into();
+        let bp: Vec<(Vec<u8>, Vec<u8>)> = (0..120).map(|i| (format!("f{}", i % 7).into_bytes(), format!("w{}", (i * 31) % 120).into_bytes())).collect();
+        p.body = refmodel::sign::spell_query(&bp).into_bytes();
+        p.body_params = Some(bp);
+        p.url_params = vec![(b"f3".to_vec(), b"url".to_vec())];
+        p.headers.push(("Content-Type".into(), b"application/x-www-form-urlencoded".to_vec()));
+        p.signed.push("content-type".into());
+        scale_plans.push(("FOLD:120 form parameters over 7 names".into(), p));
+    }
+    let repeats = 8u64; // fresh hash maps each time
+    let total_g = scale_plans.len() as u64 * repeats;
+    let base_g = base;
+    let st_g = par_sweep(total_g, |i, st| {
+        let (name, plan) = &scale_plans[(i / repeats) as usize];
+        let fold = name.starts_with("FOLD:");
+        expect_accept(base_g + i, plan, cfg_for(now, false, fold), st, "G");
+        st.sample(i, total_g, || json!({"sweep": "G-scale", "what": name, "carrier": format!("{:?}", plan.carrier)}));
+    });
+    st = st.merge(st_g);
+    base += total_g;
+
     Report {
         stats: st,
         rule: format!(
-            "requests signed by the independent reference signer from decoded data, then spelled on the wire: (A) every path of <= {} segments over {} segment values x trailing slash x {} spellings per segment x carrier x {{standard,S3}}; (B) every list of <= {} parameters over {} names x {} values, full product of {} spellings per element for <= 2 parameters and one element at a time above, x carrier; (C) 9 header sets x 6 Authorization parameter orders x 4 separators x 2 leads x 3 name cases x X-Amz-Date/Date x extras signed or not; (D) 6 bodies x 5 content types x {{default,S3,fold}} x carrier x 4 tokens (incl. the empty one) x 6 methods x URL parameters; (E) 9 clock offsets in [-15min,+15min] incl. +-1ns from the bounds x 4 server instants x 6 date renderings x carrier; (F) 1080 rich combinations. Every second case is preceded, on the same thread, by one of 7 refused requests (bad escapes half-way through a query key / value / path / form body, wrong signature, expired) so that acceptance is also checked from non-initial states. Oracle: accepted (the provider bookkeeping is C03/C14's subject and is not judged here). states = distinct reference canonical requests; non-trivial = distinct (wire request, options, clock)",
+            "requests signed by the independent reference signer from decoded data, then spelled on the wire: (A) every path of <= {} segments over {} segment values x trailing slash x {} spellings per segment x carrier x {{standard,S3}}; (B) every list of <= {} parameters over {} names x {} values, full product of {} spellings per element for <= 2 parameters and one element at a time above, x carrier; (C) 9 header sets x 6 Authorization parameter orders x 4 separators x 2 leads x 3 name cases x X-Amz-Date/Date x extras signed or not; (D) 6 bodies x 5 content types x {{default,S3,fold}} x carrier x 4 tokens (incl. the empty one) x 6 methods x URL parameters; (E) 9 clock offsets in [-15min,+15min] incl. +-1ns from the bounds x 4 server instants x 6 date renderings x carrier; (F) 1080 rich combinations; (G) scale: 21-300 parameters over 1/3/16 names, 30 signed headers, one header with 30 values, 4 kB header and 9 kB query values with a 300 kB body, 60 path segments, a folded form of 120 parameters — each 8 times through fresh maps, both carriers. Every second case is preceded, on the same thread, by one of 7 refused requests (bad escapes half-way through a query key / value / path / form body, wrong signature, expired) so that acceptance is also checked from non-initial states. Oracle: accepted (the provider bookkeeping is C03/C14's subject and is not judged here). states = distinct reference canonical requests; non-trivial = distinct (wire request, options, clock)",
             nseg, SEGS.len(), NSPELL, nq, QNAMES.len(), QVALUES.len(), NSPELL
         ),
         bounds: json!({"path_segments": nseg, "query_params": nq, "cases_enumerated": base}),
